@@ -36,7 +36,7 @@ PROBES = {"C04": "all", "C05": "all", "C09": "some", "C07": "some"}
 
 
 def shards_for(prop: str, tier: str) -> List[Dict[str, Any]]:
-    return env_cfg_shards(tier, SCOPE[prop], HEAVY)
+    return env_cfg_shards(tier, SCOPE[prop], HEAVY, prop=prop)
 
 
 class ModelMonitor(Monitor):
@@ -470,9 +470,22 @@ def run_model_shard(prop: str, shard: Dict[str, Any], rep: Report) -> None:
     probe_fn = make_probe_fn(prop, runner, P, rng, tier)
 
     if prop == "C10":
-        n_keys = int(os.environ.get("JMON_C10_KEYS", 48 if tier == "quick" else 300))
+        # a fixed minimum number of keys for every generator, then - because rare-key defects (one instance in a few hundred)
+        # are the ones a handful of keys cannot see - as many more as fit in a small time box (cheap generators get thousands)
+        import time as _time
+
+        n_min = int(os.environ.get("JMON_C10_KEYS", 48 if tier == "quick" else 300))
+        n_max = n_min if "JMON_C10_KEYS" in os.environ else (800 if tier == "quick" else 6000)
+        box = 10.0 if tier == "quick" else 75.0
         digs = set()
-        for ep in range(n_keys):
+        t_start = None
+        n_keys = 0
+        for ep in range(n_max):
+            if ep >= n_min and _time.time() - t_start > box:
+                break
+            if ep == 1:
+                t_start = _time.time()  # the first reset pays for compilation
+            n_keys += 1
             key, kint = key_for(seed, sid, ep)
             state, ts = runner.reset(key)
             ev = Event(runner, ep, 0, kint, [], None, None, state, ts)
